@@ -41,7 +41,9 @@ def compare_table(fb, name, n_args=3):
                     return outcome[i] if end != "ne" else (not outcome[i])
                 if i == j + 1 and j < len(outcome):
                     return UNKNOWN
-                return UNKNOWN
+                # a comparison of two arguments that are not neighbours: its outcome says nothing about the chain (numeric
+                # comparison across exactness is not transitive); it is answered (true) so that the run shows what is done with it
+                return True if end != "ne" else False
             return NOT
         mc = Machine(fb, intercept=icpt, max_visits=n_args + 3)
         try:
